@@ -85,6 +85,72 @@ Definition emitted (fuel : nat) (g : graph) (nodce : bool) (s : nat) : option bo
   if nodce then Some true
   else match is_used fuel g [] s with Some (b, _) => Some b | None => None end.
 
+(* ---- the initializer of a declaration `local x = e` (cgenerator.visitors.VarDecl) ----
+   what the generator knows about it *)
+Record initinfo := mk_ii {
+  ii_vartype_comptime : bool;     (* the variable has a compile-time type *)
+  ii_has_val : bool;              (* there is an initializer *)
+  ii_val_comptime : bool;         (* the initializer is a compile-time constant *)
+  ii_lastcall : bool;             (* the value comes out of a trailing multiple-return call *)
+  ii_se_attr : bool }.            (* the analyzer's `sideeffect` attribute of the initializer node *)
+
+(* one conjunct of the scraped condition (numbering: Gen.v); an unknown conjunct is taken to fail *)
+Definition atom_holds (a : nat) (i : initinfo) : bool :=
+  match a with
+  | 1%nat => negb (ii_vartype_comptime i)
+  | 2%nat => ii_has_val i
+  | 3%nat => negb (ii_val_comptime i)
+  | 4%nat => negb (ii_lastcall i)
+  | 5%nat => ii_se_attr i
+  | _ => false
+  end.
+(* the branch that re-emits the initializer of a variable dropped by dead code elimination, as scraped *)
+Definition dead_init_emitted (i : initinfo) : bool := forallb (fun a => atom_holds a i) dead_init_cond_atoms.
+
+(* is the initializer evaluated at run time?  kept variable: it initialises the variable; trailing
+   multiple-return call: the `_asgnret` statement is emitted before the branch; otherwise the scraped branch *)
+Definition init_evaluated (nodce used : bool) (i : initinfo) : bool :=
+  if nodce || used then true else if ii_lastcall i then true else dead_init_emitted i.
+(* it has to be, unless there is nothing to evaluate at run time *)
+Definition needs_eval (i : initinfo) : bool :=
+  ii_has_val i && negb (ii_val_comptime i) && negb (ii_vartype_comptime i).
+
+(* initializer shapes: every expression constructor around calls; [se] = the callee is marked *)
+Inductive iexpr :=
+  | IConst | IVar
+  | ICall (se : bool) (args : list iexpr)
+  | IMethod (se : bool) (obj : iexpr) (args : list iexpr)
+  | IField (e : iexpr) | IIndex (e i : iexpr) | IDeref (e : iexpr) | IParen (e : iexpr)
+  | ICast (e : iexpr) | IUn (e : iexpr) | IBin (l r : iexpr)
+  | IList (es : list iexpr).
+
+(* does evaluating it perform a marked call? *)
+Fixpoint effectful (e : iexpr) : bool :=
+  match e with
+  | IConst | IVar => false
+  | ICall se args => se || existsb effectful args
+  | IMethod se obj args => se || effectful obj || existsb effectful args
+  | IField e | IDeref e | IParen e | ICast e | IUn e => effectful e
+  | IIndex e i => effectful e || effectful i
+  | IBin l r => effectful l || effectful r
+  | IList es => existsb effectful es
+  end.
+
+(* the `sideeffect` attribute as analyzer.lua propagates it: calls take the callee's flag (arguments are not
+   looked at), casts / unary / binary operators / initializer lists propagate, field access, indexing and
+   dereference do not *)
+Fixpoint attr_se (e : iexpr) : bool :=
+  match e with
+  | IConst | IVar => false
+  | ICall se _ | IMethod se _ _ => se
+  | IField _ | IIndex _ _ | IDeref _ => false
+  | IParen e | ICast e | IUn e => attr_se e
+  | IBin l r => attr_se l || attr_se r
+  | IList es => existsb attr_se es
+  end.
+
+Definition info_of (e : iexpr) : initinfo := mk_ii false true false false (attr_se e).
+
 (* graphs given by association lists (driver) *)
 Definition graph_of (roots : list nat) (edges : list (nat * list nat)) : graph :=
   mk_graph (fun s => memb s roots)
